@@ -6,7 +6,7 @@
 From Coq Require Import List NArith ZArith.
 Import ListNotations.
 Require Import Base.Wire Base.PyStr C12.Model C12.Wrap C12.More C12.Fits C12.Plain C12.Total
-  C12.Chars C12.Parser C12.Format C12.Visible C12.EndToEnd.
+  C12.Chars C12.Parser C12.Format C12.Visible C12.EndToEnd C12.MoreNick C12.FmtEndToEnd.
 
 (* ---- byteTextWrap, for every word list (the output of TextWrapper._split_chunks is an
         explicit input) and every size >= 4 ---- *)
@@ -57,6 +57,28 @@ Print Assumptions C12_more_sequence.
 Theorem C12_more_progress : forall L number, (1 <= number)%N -> L <> [] -> fst (more L number) <> [].
 Proof. exact more_progress. Qed.
 Print Assumptions C12_more_progress.
+
+(* `more <nick>` by another user (repair of F44: Misc.more copies the messages it takes over).  For every
+   well-formed store (no message object queued twice, none already sent) each command delivers everything
+   it pops -- nothing trips the emulatedEcho assertion in takeMsg -- and the other user's commands leave
+   the owner's queue alone ... *)
+Theorem C12_more_nick_delivers : forall number st op,
+  wf st ->
+  wf (snd (mstep number st op)) /\
+  fst (mstep number st op) = fst (more (lines (queue_of st op)) number) /\
+  lines (ms_owner (snd (mstep number st op))) =
+    match op with OpOwner => snd (more (lines (ms_owner st)) number) | _ => lines (ms_owner st) end.
+Proof. exact mstep_delivers. Qed.
+Print Assumptions C12_more_nick_delivers.
+
+(* ... so after a reply, whatever the other user does in between, the owner's successive `more` outputs
+   followed by what is still pending for her are exactly her pending chunks, in order *)
+Theorem C12_more_nick_sequence : forall k s sent L number ops,
+  reply k s = Ok (sent, L) ->
+  let st0 := MS (number_from 0 L) [] [] (N.of_nat (length (number_from 0 L))) in
+  owner_out ops (fst (mrun number st0 ops)) ++ rev (lines (ms_owner (snd (mrun number st0 ops)))) = rev L.
+Proof. exact more_nick_sequence. Qed.
+Print Assumptions C12_more_nick_sequence.
 
 (* ---- every message fits in 512 bytes once prefixed ----
    Full statement:  forall k s sent L, reply k s = Ok (sent, L) ->
@@ -163,6 +185,27 @@ Theorem C12_reply_plain_total : forall k s0,
   plain_dom k s0 = true -> has_surrogate s0 = false -> exists sent L, reply k s0 = Ok (sent, L).
 Proof. exact reply_plain_total. Qed.
 Print Assumptions C12_reply_plain_total.
+
+(* ---- end to end, formatted text under safe_cuts ----
+   Same composition for replies with mIRC formatting: on fmt_dom (non-empty text without \x01 whose only
+   blanks are spaces; splitting on; the formatting overhead fits the chunk budget; no cut of the text
+   actually split falls in front of a digit or a comma; at most 100 chunks) the relayed lines are one
+   per chunk in order with the right count, each fits 512 bytes and is left intact by takeMsg, no chunk
+   is empty, and the visible text of the chunks -- each stripped on its own -- is the visible text of the
+   reply, every chunk showing a contiguous piece of it. *)
+Theorem C12_reply_fmt_end_to_end : forall k s0 sent L number times,
+  fmt_dom k s0 = true -> reply k s0 = Ok (sent, L) -> (1 <= number)%N -> (length L <= times)%nat ->
+  let lines := sent ++ concat (mores_go times L number) in
+  let text := reply_text k s0 in
+  exists chunks,
+    lines = lines_of k chunks
+    /\ Forall (good_line k) lines
+    /\ concat (map visible chunks) = visible text
+    /\ (forall c, In c chunks -> c <> [] /\ exists pre post, visible text = pre ++ visible c ++ post)
+    /\ (exists m, text = firstn m s0)
+    /\ ((Z.of_nat (length s0) <= allowed_length k * Z.of_N (c_maximum k))%Z -> text = s0).
+Proof. exact reply_fmt_end_to_end. Qed.
+Print Assumptions C12_reply_fmt_end_to_end.
 
 (* ---- FormatParser never raises (full since the repair of F40) ---- *)
 Theorem C12_parse_total : forall s, exists r, parse s = Ok r.
